@@ -315,6 +315,13 @@ func cmdRun(args []string) int {
 			out := nat.Run(bin, rc, 30*time.Second)
 			ev.NativeReplays++
 			okk := out.Outcome == "pass" && sameObs(out.Observes, s.Observes)
+			// harnesses that run the library's real timers or goroutines natively can be
+			// disturbed by a loaded machine: a disagreement counts only if it repeats
+			for retry := 0; !okk && retry < 2 && (r.spec.Goroutines || r.spec.VirtualTime); retry++ {
+				out = nat.Run(bin, rc, 30*time.Second)
+				ev.NativeReplays++
+				okk = out.Outcome == "pass" && sameObs(out.Observes, s.Observes)
+			}
 			if !okk {
 				mismatches++
 				hv.Mismatches = append(hv.Mismatches, fmt.Sprintf("inputs=%v engine=pass obs=%v native=%s %s obs=%v", s.Inputs, s.Observes, out.Outcome, out.Detail, out.Observes))
